@@ -147,7 +147,14 @@ fn observe_c03(w: &World, cx: &mut Ctx) -> R {
     }
     for (route, rec) in [("text", recover_text(&w.model)), ("builder", recover_builder(&w.model))] {
         match rec {
-            None => cx.hit("restart_refused_unreachable"),
+            None => {
+                if w.pure_play {
+                    // after legal moves from a start position a fresh board of the same position must exist
+                    // for the comparison the statement makes
+                    cx.fail(format!("C03/no-fresh-board-for-reached-position/{}", route), format!("cannot construct a fresh board of {}", at))?;
+                }
+                cx.hit("restart_refused_unreachable")
+            }
             Some(rec) => {
                 if rec.checkers() != w.real.checkers() || rec.pinned() != w.real.pinned() {
                     cx.fail(format!("C03/live-vs-fresh/{}", route), format!("live checkers/pins differ from a fresh board at {}", at))?;
